@@ -62,6 +62,14 @@ var alphabet = []string{
 	"RENAME %O Z", "DELETE %O", "CREATE C", "IDLE\r\nDONE", "NOOP", "SEARCH ALL",
 }
 
+// early-return and special-marker paths of the backend (see enumerate)
+var hygiene = []string{
+	"UID EXPUNGE $", "UID EXPUNGE *", "UID EXPUNGE 1:*", "UID EXPUNGE 99", "UID STORE $ +FLAGS (\\Seen)", "UID FETCH $ (FLAGS)", "FETCH $ (FLAGS)",
+	"UID COPY $ %O", "UID MOVE $ %O", "UID SEARCH RETURN (SAVE) HEADER Subject nothing", "SEARCH $", "STORE 9 +FLAGS (\\Seen)", "FETCH 9 (FLAGS)",
+	"COPY 9 %O", "MOVE 9 %O", "COPY 1 nosuch", "MOVE 1 nosuch", "APPEND nosuch {5+}\r\nhello", "STATUS nosuch (MESSAGES)", "SELECT nosuch", "EXAMINE %O",
+	"RENAME nosuch Z", "RENAME %O %S", "DELETE nosuch", "CREATE %O", "SUBSCRIBE nosuch", "UNSUBSCRIBE %O", "LSUB \"\" *", "UNSELECT",
+}
+
 func expand(cmd, own string) string {
 	other := "B"
 	if own == "B" {
@@ -275,6 +283,15 @@ func enumerate(thorough bool) []scenarioDef {
 			}
 		}
 	}
+	// lock hygiene on the paths the pair alphabet does not walk (empty / out-of-range / unknown
+	// targets, the saved-search marker, UID forms): the command, then a probe that takes the user's
+	// and every mailbox's lock, in the same session and racing in another one
+	probe := "LIST \"\" * RETURN (STATUS (MESSAGES))"
+	for _, c := range hygiene {
+		for _, m2 := range []string{"A", "B"} {
+			defs = append(defs, mk(fmt.Sprintf("hygiene/A:%s|%s:probe", c, m2), [2]interface{}{"A", []string{c, probe}}, [2]interface{}{m2, []string{probe}}))
+		}
+	}
 	// same 3-command history in 2..3 sessions
 	hist := []string{"STORE 1 +FLAGS (\\Seen)", "COPY 1 %O", "EXPUNGE"}
 	defs = append(defs, mk("same-history-2", [2]interface{}{"A", hist}, [2]interface{}{"B", hist}))
@@ -296,6 +313,15 @@ func enumerate(thorough bool) []scenarioDef {
 func main() {
 	run := vk.Start("C14", "model_checking")
 	defs := enumerate(run.Thorough())
+	if only := os.Getenv("C14_ONLY"); only != "" { // debugging aid: restrict to scenarios whose name contains this
+		var keep []scenarioDef
+		for _, d := range defs {
+			if strings.Contains(d.Name, only) {
+				keep = append(keep, d)
+			}
+		}
+		defs = keep
+	}
 	dbound, pbound := 2, 1
 	maxExec := int64(6000)
 	if run.Thorough() {
@@ -318,6 +344,16 @@ func main() {
 			sc := build(d)
 			res, obs := vx.RunOnce(sc, f.Detail.Choices, 50000, true)
 			fmt.Printf("scenario %s choices=%v\nverdict=%s\nobservation=%+v\nblocked:\n  %s\npanics=%v\n", sc.Name, f.Detail.Choices, res.Verdict, obs, strings.Join(res.Blocked, "\n  "), res.Panics)
+			for _, l := range res.Log {
+				fmt.Println("  ", l)
+			}
+			if os.Getenv("C14_REPLAY_TWICE") != "" {
+				res2, _ := vx.RunOnce(sc, f.Detail.Choices, 50000, true)
+				fmt.Println("second run in the same process:")
+				for _, l := range res2.Log {
+					fmt.Println("  ", l)
+				}
+			}
 			if key, detail := sc.Check(res, obs); key != "" {
 				run.Violation(key, map[string]interface{}{"scenario": d.Name, "choices": f.Detail.Choices, "detail": detail})
 			}
@@ -419,7 +455,7 @@ func main() {
 	run.Set("preemption_bound", int64(pbound))
 	run.Set("max_executions_per_scenario_and_mode", maxExec)
 	run.Exhaustive = exhaustive
-	run.Rule = "scenario = 2 (3) sessions on one user's mailboxes A and B (2 messages each), each logged in and selected sequentially, then given its racing command(s) at once: every ordered pair of commands from an 18-command alphabet (COPY/MOVE/UID MOVE to the other mailbox, FETCH with bodies, STORE, EXPUNGE, APPEND, SELECT, CLOSE, LIST, LIST-STATUS, STATUS, RENAME, DELETE, CREATE, IDLE+DONE, NOOP, SEARCH) x every assignment of selected mailboxes (includes opposite-direction COPY/MOVE pairs), the same 3-command history in all sessions, and (thorough) triples over a reduced alphabet; per scenario DFS over schedules of the real server + in-memory backend under delay bounding and preemption bounding. distinct_nontrivial = distinct (scenario, per-command status vector) outcomes"
+	run.Rule = "scenario = 2 (3) sessions on one user's mailboxes A and B (2 messages each), each logged in and selected sequentially, then given its racing command(s) at once: every ordered pair of commands from an 18-command alphabet (COPY/MOVE/UID MOVE to the other mailbox, FETCH with bodies, STORE, EXPUNGE, APPEND, SELECT, CLOSE, LIST, LIST-STATUS, STATUS, RENAME, DELETE, CREATE, IDLE+DONE, NOOP, SEARCH) x every assignment of selected mailboxes (includes opposite-direction COPY/MOVE pairs), the same 3-command history in all sessions, 29 further commands on early-return / special-marker paths (UID EXPUNGE $ with an empty saved result, out-of-range numbers, unknown or existing target names, UID forms) each followed by and racing with a LIST-STATUS probe, and (thorough) triples over a reduced alphabet; per scenario DFS over schedules of the real server + in-memory backend under delay bounding and preemption bounding. distinct_nontrivial = distinct (scenario, per-command status vector) outcomes"
 	run.Assume("peers drain their sockets: server writes never block")
 	run.Assume("data races themselves are not visible to a cooperative scheduler; deadlocks, lost completions and panics are")
 	run.Finish()
